@@ -237,3 +237,63 @@ def _(E, orient):
     E.ensure("(arc*M).point_at_t(+-(t-t0))==M(arc.point_at_t(t))", pt_eq(image_point, apply(M, source_point)))
 
 
+
+
+# --------------------------------------------------------------------------------------------------
+# C05: endpoint parameterisation (SVG implementation notes F.6.5 / F.6.6)
+# --------------------------------------------------------------------------------------------------
+FLAGS = [(0, 0), (0, 1), (1, 0), (1, 1)]
+PARAM_FUNCS = ["Arc._svg_parameterize", "Arc.__init__", "Matrix.post_rotate", "Matrix.post_translate",
+               "Matrix.post_cat", "Point.matrix_transform", "Point.__imul__", "Angle.degrees", "Angle.as_radians",
+               "Point.__eq__", "Curve.__init__", "PathSegment.__init__"]
+
+
+def f65_inputs(E):
+    x1, y1, x2, y2 = E.reals("x1 y1 x2 y2", ANY)
+    rx, ry = E.reals("rx ry", POS)
+    rot = E.real("rot", lambda r: r.choice([0.0, 30.0, 90.0, 180.0, -400.0, 725.0, 45.5]))
+    E.assume(And(rx > 0, ry > 0))
+    # start != end beyond the 1e-12 tolerance of Point.__eq__ (the degenerate branch has its own obligation)
+    E.assume(Or(Abs(x1 - x2) > E.const(1e-12), Abs(y1 - y2) > E.const(1e-12)))
+    return x1, y1, x2, y2, rx, ry, rot
+
+
+def primed(E, x1, y1, x2, y2, rot):
+    phi = rot * E.pi / 180
+    c, s = E.cos(phi), E.sin(phi)
+    dx, dy = (x1 - x2) / 2, (y1 - y2) / 2
+    return c, s, c * dx + s * dy, -s * dx + c * dy
+
+
+@family("C05/Arc._svg_parameterize/geometry", FLAGS, funcs=PARAM_FUNCS, props=["C05"], timeout_ms=60000)
+def _(E, flags):
+    fa, fs = flags
+    x1, y1, x2, y2, rx, ry, rot = f65_inputs(E)
+    arc = E.construct("Arc", (x1, y1), rx, ry, rot, fa, fs, (x2, y2))
+    c, s, x1p, y1p = primed(E, x1, y1, x2, y2, rot)
+    lam = x1p * x1p / (rx * rx) + y1p * y1p / (ry * ry)
+    E.ensure("endpoints_are_the_given_points", And(pt_eq(arc.start, (x1, y1)), pt_eq(arc.end, (x2, y2))))
+    C = pt(arc.center)
+    P, Q = sub(pt(arc.prx), C), sub(pt(arc.pry), C)
+    # stored point form: P = rx' (cos, sin), Q = ry' (-sin, cos) with rx' = k*rx, ry' = k*ry, k = max(1, sqrt(lam))
+    k = E.real("k")
+    E.assume(And(k >= 1, Ite(lam > 1, k * k == lam, k == 1)))
+    E.ensure("radius_points_are_the_(scaled)_radii_on_the_rotated_axes",
+             And(pt_eq(P, (k * rx * c, k * rx * s)), pt_eq(Q, (-k * ry * s, k * ry * c))))
+    # both endpoints lie on the ellipse centre + rotated axes with the corrected radii
+    for nm, (x, y) in (("start", (x1, y1)), ("end", (x2, y2))):
+        d = (x - C[0], y - C[1])
+        u, v = (d[0] * c + d[1] * s), (-d[0] * s + d[1] * c)
+        E.ensure("%s_on_the_ellipse" % nm,
+                 u * u * (k * ry) * (k * ry) + v * v * (k * rx) * (k * rx) == (k * rx) * (k * rx) * (k * ry) * (k * ry))
+
+
+@family("C05/Arc._svg_parameterize/sweep", FLAGS, funcs=PARAM_FUNCS, props=["C05"], timeout_ms=60000)
+def _(E, flags):
+    fa, fs = flags
+    x1, y1, x2, y2, rx, ry, rot = f65_inputs(E)
+    arc = E.construct("Arc", (x1, y1), rx, ry, rot, fa, fs, (x2, y2))
+    sw = arc.sweep
+    E.ensure("direction_follows_the_sweep_flag", (sw >= 0) if fs else (sw <= 0))
+    E.ensure("at_most_one_turn", Abs(sw) <= E.tau)
+    E.ensure("extent_follows_the_large_arc_flag", (Abs(sw) >= E.pi) if fa else (Abs(sw) <= E.pi))
